@@ -18,7 +18,7 @@ Ltac rsimp :=
        set_nbits_offset set_scale_offset set_nbits_new_refval set_new_refvals set_assoc
        set_nbits_skipped set_bsr set_new_nbytes set_dnp set_qa set_bitmap_set set_bitmapped
        set_bm_state set_reuse set_n031031 set_next_bm set_boundary set_backrefs
-       upd_r set_r w_r w_c ck_code ck_ndef io_dd io_links io_c keys dirty fresh].
+       upd_r set_r w_r w_c ck_code ck_ndef io_dd io_links io_c keys dirty dirty_of fresh].
 Ltac rsimp_in H :=
   cbn [r_nbits_offset r_scale_offset r_nbits_new_refval r_new_refvals r_assoc r_nbits_skipped r_bsr
        r_new_nbytes r_dnp r_qa r_bitmap_set r_bitmapped r_bm_state r_reuse r_n031031 r_next_bm
@@ -26,12 +26,15 @@ Ltac rsimp_in H :=
        set_nbits_offset set_scale_offset set_nbits_new_refval set_new_refvals set_assoc
        set_nbits_skipped set_bsr set_new_nbytes set_dnp set_qa set_bitmap_set set_bitmapped
        set_bm_state set_reuse set_n031031 set_next_bm set_boundary set_backrefs
-       upd_r set_r w_r w_c ck_code ck_ndef io_dd io_links io_c keys dirty fresh] in H.
+       upd_r set_r w_r w_c ck_code ck_ndef io_dd io_links io_c keys dirty dirty_of fresh] in H.
 
-Definition StatInv (rC : regs) : Prop :=
+Definition BmInv (rC : regs) : Prop :=
   r_bm_state rC = BITMAP_NA \/ r_bm_state rC = BITMAP_INDICATOR \/
   (r_bm_state rC = BITMAP_WAITING_FOR_BIT /\ r_n031031 rC = 0%Z) \/
   (r_bm_state rC = BITMAP_BIT_COUNTING /\ (1 <= r_n031031 rC)%Z).
+
+Definition StatInv (rC : regs) (nd : nat) : Prop :=
+  BmInv rC /\ (length (r_new_refvals rC) <= nd)%nat.
 
 Record InvR (rC : regs) (nd : nat) (rI rE : regs) : Prop := mkInvR {
   sa_nbits_offset : r_nbits_offset rI = r_nbits_offset rC;
@@ -70,8 +73,9 @@ Definition Inv (sC : ws cks) (sI sE : st) : Prop :=
 
 (* what a compile step [resC] from [sC] promises about the interpreted step [fI] *)
 Definition simc_at (sC : ws cks) (resC : result (ws cks)) (fI : st -> result st) : Prop :=
-  forall sC', resC = Ok sC' -> StatInv (w_r sC) ->
-  exists code, ck_code (w_c sC') = stmts_app (ck_code (w_c sC)) code /\ StatInv (w_r sC') /\
+  forall sC', resC = Ok sC' -> StatInv (w_r sC) (ck_ndef (w_c sC)) ->
+  exists code, ck_code (w_c sC') = stmts_app (ck_code (w_c sC)) code /\
+    StatInv (w_r sC') (ck_ndef (w_c sC')) /\
     forall sI sE, Inv sC sI sE -> agree (Inv sC') (fI sI) (exec code sE).
 
 Definition simc (fC : ws cks -> result (ws cks)) (fI : st -> result st) : Prop :=
@@ -108,12 +112,13 @@ Qed.
 
 (* a register update performed by the walker itself, on both sides *)
 Lemma simc_at_upd (f : regs -> regs) sC :
-  (StatInv (w_r sC) -> StatInv (f (w_r sC))) ->
-  (forall rI rE, InvR (w_r sC) (ck_ndef (w_c sC)) rI rE -> InvR (f (w_r sC)) (ck_ndef (w_c sC)) (f rI) rE) ->
+  (StatInv (w_r sC) (ck_ndef (w_c sC)) ->
+   StatInv (f (w_r sC)) (ck_ndef (w_c sC)) /\
+   forall rI rE, InvR (w_r sC) (ck_ndef (w_c sC)) rI rE -> InvR (f (w_r sC)) (ck_ndef (w_c sC)) (f rI) rE) ->
   simc_at sC (Ok (upd_r f sC)) (fun s => Ok (upd_r f s)).
 Proof.
-  intros HSf HIf sC' E HS. injection E as <-. exists SNil.
-  split; [symmetry; apply stmts_app_nil_r|]. split; [apply HSf; exact HS|].
+  intros HSf sC' E HS. injection E as <-. exists SNil. destruct (HSf HS) as [HS' HIf].
+  split; [symmetry; apply stmts_app_nil_r|]. split; [exact HS'|].
   intros sI sE [Hc HR]. cbn [agree exec_stmts]. split; [exact Hc|]. apply HIf. exact HR.
 Qed.
 
@@ -214,7 +219,8 @@ Lemma new_refval_simc nzf dd a sC :
   simc_at sC (h_new_refval (chk_handlers nzf) dd a sC) (h_new_refval H dd a).
 Proof.
   intros sC' E HS. cbn [chk_handlers h_new_refval] in E. injection E as <-.
-  exists (SCons (SNewRefval dd a) SNil). split; [reflexivity|]. split; [exact HS|].
+  exists (SCons (SNewRefval dd a) SNil). split; [reflexivity|].
+  split; [destruct HS as [HB HL]; split; [exact HB|rsimp; unfold refval_set; cbn [length]; lia]|].
   intros sI sE [Hc HR]. rewrite exec_stmts_one. cbn [exec_stmt].
   cbn [io_handlers h_new_refval]. unfold push_dd, with_c. rsimp. rewrite Hc.
   destruct (p_new_refval P a (io_c (w_c sE))) as [[v c]|e]; cbn [bind agree]; [|reflexivity].
